@@ -572,7 +572,18 @@ func (e *SpecEnv) quant(q *EQuant) Val {
 	for _, tr := range q.Trig {
 		var ts []string
 		for _, te := range tr {
-			ts = append(ts, c.x.termOf(c.st, c.eval(te)))
+			tv := c.eval(te)
+			tt := c.x.termOf(c.st, tv)
+			if strings.HasPrefix(tt, "(and ") {
+				// `k in m` on a Go map is (and (m != nil) (select dom k)): the pattern is the select
+				if ps := flattenAnd(tt); len(ps) > 0 {
+					tt = ps[len(ps)-1]
+				}
+			}
+			if tv.Ty != nil || tv.M != nil {
+				c.x.ctx.notePatSort(tt, c.sortOfS(c.styOf(tv)))
+			}
+			ts = append(ts, tt)
 		}
 		pats = append(pats, ":pattern ("+strings.Join(ts, " ")+")")
 	}
